@@ -40,6 +40,7 @@ class HistExec(ExecBase):
         self.outcomes = []
         self.lines = 0
         self.ended_by_rejection = False
+        self.unobservable_after_interrupt = False
 
 
 def run_history(world, opsource, oracle_cls, device=None, max_records=5000):
@@ -64,13 +65,24 @@ def run_history(world, opsource, oracle_cls, device=None, max_records=5000):
                 res.accepted_liquid += 1
             if not out.ok:
                 res.faults_fired.append(classify_fault(op, out))
+            if sess.unobservable is not None:
+                raise sess.unobservable
             orc.after(i, op, out)
         except ShapeChanged as e:
+            if sess.injected_any:
+                res.unobservable_after_interrupt = True
+                break
             orc.fail(f"{orc.PROP}.shape", i, op, "ok",
                      f"Labware.volumes of labware {e.args[0]} has shape {e.args[1]}, not (real rows, columns)")
             break
         except Exception as e:  # noqa
-            if not raised_in_sut(e):
+            if sess.injected_any and (raised_in_sut(e) or e is sess.unobservable or isinstance(e, (AttributeError, TypeError, ValueError, IndexError, KeyError))):
+                # An asynchronous abort in the middle of an operation may leave the labware objects it touched
+                # in a state that cannot even be observed any more (or whose observations are of another type).
+                # None of the properties promises otherwise: the run ends here without a verdict.
+                res.unobservable_after_interrupt = True
+                break
+            if not (raised_in_sut(e) or e is sess.unobservable):
                 raise
             orc.fail(f"{orc.PROP}.observe", i, op, "ok",
                      f"observing the labware/worklist after {op['op']} raised {type(e).__name__} inside robotools")
@@ -83,10 +95,13 @@ def run_history(world, opsource, oracle_cls, device=None, max_records=5000):
     except ShapeChanged:
         pass
     except Exception as e:  # noqa
-        if not raised_in_sut(e):
+        if sess.injected_any and (raised_in_sut(e) or isinstance(e, (AttributeError, TypeError, ValueError, IndexError, KeyError))):
+            res.unobservable_after_interrupt = True
+        elif not raised_in_sut(e):
             raise
-        orc.fail(f"{orc.PROP}.observe", len(res.ops) - 1, res.ops[-1] if res.ops else None, "ok",
-                 f"observing the labware at the end of the run raised {type(e).__name__} inside robotools")
+        else:
+            orc.fail(f"{orc.PROP}.observe", len(res.ops) - 1, res.ops[-1] if res.ops else None, "ok",
+                     f"observing the labware at the end of the run raised {type(e).__name__} inside robotools")
     res.events = sess.events
     res.digest = digest_events(sess.events)
     for v in res.violations:
@@ -127,6 +142,8 @@ def account(stats, world, res, prop, fault_bearing=True):
         stats.transitions.add(transition_key(world, op, oc))
     if res.ended_by_rejection:
         stats.ended_by_rejection += 1
+    if res.unobservable_after_interrupt:
+        stats.probes["labware_unobservable_after_injected_interrupt"] += 1
     stats.last_exec = ({"format": 1, "property": prop, "world": world, "ops": res.ops}, res.digest)
     if len(stats.samples) < 3 and res.accepted_liquid > 1 and (fired or not fault_bearing):
         stats.samples.append({"world": world, "ops": res.ops, "outcomes": res.outcomes})
